@@ -190,3 +190,70 @@ pub fn confirm_alone(name: &str, extra: &[String], case: &str, limit: Duration, 
     let _ = t0;
     r.into_iter().next().unwrap()
 }
+
+pub const MAX_CULPRITS: usize = 48;
+
+/// Resumable batches. Each case is a JSON object describing `lens[k]` items; the worker must honour
+/// the integer fields "from" / "to", print `progress(idx)` before working on item `idx`, and answer
+/// one line for the segment. When a worker dies or exceeds the per-item limit, the item named by
+/// its last progress mark is recorded as culprit and the rest of the batch is resubmitted (the
+/// prefix is re-run to recover its output: workers are deterministic).
+/// Returns per case: the outputs of all completed segments, and the culprits (item index, reason).
+pub fn run_resumable(
+    name: &str,
+    cases: &[serde_json::Value],
+    lens: &[usize],
+    nworkers: usize,
+    timeout: Duration,
+    mem_mb: u64,
+) -> Result<Vec<(Vec<String>, Vec<(usize, WOut)>)>, String> {
+    let mut out: Vec<(Vec<String>, Vec<(usize, WOut)>)> = vec![(vec![], vec![]); cases.len()];
+    let mut pending: Vec<(usize, usize, usize)> = (0..cases.len()).filter(|k| lens[*k] > 0).map(|k| (k, 0, lens[k])).collect();
+    let mut rounds = 0;
+    while !pending.is_empty() {
+        rounds += 1;
+        if rounds > 2000 {
+            return Err("too many resubmission rounds".into());
+        }
+        // Enough culprits to fail the check: do not spend hours on the rest (the caller reports
+        // the exploration as cut short; a run with culprits never passes anyway).
+        let culprits: usize = out.iter().map(|o| o.1.len()).sum();
+        if culprits >= MAX_CULPRITS {
+            break;
+        }
+        let lines: Vec<String> = pending
+            .iter()
+            .map(|(k, from, to)| {
+                let mut c = cases[*k].clone();
+                c["from"] = serde_json::json!(from);
+                c["to"] = serde_json::json!(to);
+                c.to_string()
+            })
+            .collect();
+        let (res, prog) = run_pool_progress(name, &[], &lines, nworkers, timeout, mem_mb);
+        let mut next = vec![];
+        for (i, r) in res.into_iter().enumerate() {
+            let (k, from, to) = pending[i];
+            match r {
+                WOut::Ok(l) => out[k].0.push(l),
+                other => {
+                    let Some(mark) = prog[i].as_ref().and_then(|p| p.parse::<usize>().ok()) else {
+                        return Err(format!("worker died outside an item ({:?}) on case {}", other, cases[k]));
+                    };
+                    if mark < from || mark >= to {
+                        return Err(format!("progress mark {} outside [{}, {})", mark, from, to));
+                    }
+                    out[k].1.push((mark, other));
+                    if mark > from {
+                        next.push((k, from, mark));
+                    }
+                    if mark + 1 < to {
+                        next.push((k, mark + 1, to));
+                    }
+                }
+            }
+        }
+        pending = next;
+    }
+    Ok(out)
+}
